@@ -61,6 +61,9 @@ def _random(alphabet, chunk, total, seed):
 
 _FR = resync.clean_frames(3, True, False, 11)
 _RO = resync.clean_readouts(3, 11)
+from vlib import gen_hdlc as _GH  # noqa: E402
+
+_SEG = [_GH.build_frame(0xA, 1, b"\x03", b"\x21", 0x13, bytes([i, 1, 2, 3])) for i in range(3)]  # segmentation bit set (format A8xx)
 
 HDLC_PATTERNS = {
     "all-flags": lambda c, t, s: _cycle(bytes([FLAG]), c, t),
@@ -73,6 +76,10 @@ HDLC_PATTERNS = {
     "no-flag-random": lambda c, t, s: _random([o for o in range(256) if o != FLAG], c, t, s),
     "random": lambda c, t, s: _random(None, c, t, s),
     "dense": lambda c, t, s: _random([FLAG, ESC, 0x5E, 0x5D, 0xA0, 0x00, 0x01, 0x02], c, t, s),
+    # complete header announcing FEWER octets than arrive, then flags only (flags inside an unfinished frame are data without stuffing)
+    "overrun-frame-then-flags": lambda c, t, s: _prefixed(bytes([FLAG]) + b"\xa0\x05\x03\x03\x13\xaa\xbb\xcc", _cycle(bytes([FLAG]), c, t)),
+    "overrun-frame-then-flags-and-escapes": lambda c, t, s: _prefixed(bytes([FLAG]) + b"\xa0\x05\x03\x03\x13\xaa\xbb\xcc", _cycle(bytes([FLAG, FLAG, ESC]), c, t)),
+    "segmented-valid-frames": lambda c, t, s: _cycle(b"".join(bytes([FLAG]) + f for f in _SEG), c, t),
     "hdr-2047-then-zeros": lambda c, t, s: _cycle(bytes([FLAG]) + b"\xa7\xff\x01\x01\x10\x38\x83" + bytes(2500), c, t),
 }
 
@@ -169,7 +176,8 @@ def oracle(case) -> Info:
 from hypothesis import strategies as st  # noqa: E402
 
 _H_TOK = st.one_of(
-    st.sampled_from([bytes([FLAG]), bytes([ESC]), bytes([FLAG, FLAG]), bytes([ESC, FLAG]), b"\xa0", b"\xa0\x07\x01\x01\x10", b"\x01", b"\x02", _FR[0], _FR[0][:9], bytes([FLAG]) + _FR[1] + bytes([FLAG])]),
+    st.sampled_from([bytes([FLAG]), bytes([ESC]), bytes([FLAG, FLAG]), bytes([ESC, FLAG]), b"\xa0", b"\xa0\x07\x01\x01\x10", b"\x01", b"\x02", _FR[0], _FR[0][:9], bytes([FLAG]) + _FR[1] + bytes([FLAG]),
+                     bytes([FLAG]) + b"\xa0\x05\x03\x03\x13\xaa\xbb\xcc", bytes([FLAG]) + _SEG[0] + bytes([FLAG]), bytes([FLAG]) + _SEG[1]]),
     st.binary(min_size=1, max_size=6),
 )
 _P_TOK = st.one_of(
@@ -221,7 +229,7 @@ def build() -> Check:
             "drawn: Hypothesis draws a reader, configuration, a prefix token, a block of 1..6 tokens (flags, escapes, frame pieces / '/', '!', LF, "
             "identification and data line pieces, random octets) repeated endlessly, and a chunk size 1..65536; 96-384 KiB per case. patterns: "
             "Endless-stream patterns generated lazily (HDLC: all flags; flag+escape; flag+short junk; flag,flag,5 junk octets; valid frames back "
-            "to back; never-ending frame; escapes only; flag-free random; random; 7E/7D-dense random; header announcing 2047 then zeros - "
+            "to back; never-ending frame; escapes only; flag-free random; random; 7E/7D-dense random; header announcing 2047 then zeros; complete header announcing fewer octets than arrive, then flags only; valid frames with the segmentation bit set back to back - "
             "P1: identification lines without end line; '/' then no LF ever; '/abc' repeated without LF; identification + endless data "
             "lines; valid readouts back to back; random ASCII; random bytes; LF-free random; data lines only; end lines only; "
             "identification then digits without LF) x chunk sizes {1,7,64,1000,4096,65536} (thorough: 10 sizes up to 65536) x HDLC "
